@@ -304,8 +304,19 @@ def e7(ctx: Ctx):
     # scalars are initialised with the right kind of zero
     vi = py.cls("VarInitializerVisitor").properties.get("assignment_lines")
     ctx.need(vi is not None, "VarInitializerVisitor.assignment_lines", "not found")
-    s2 = unparse(vi)
-    okz = ast_contains(vi, "'' if $v.endswith('$') else 0.0")
-    ctx.ob("scalar-init-values", okz, "" if okz else "pre-initialisation no longer assigns \"\" to strings and 0.0 to numbers", file="coco/b09/visitors.py", line=vi.lineno, props=["C03"])
-    okf = ast_contains(vi, "$v.endswith('$') and len($v) <= 3 or len($v) <= 2")
-    ctx.ob("scalar-init-filter", okf, "" if okf else "the filter that keeps generated names (arr_*, tmp_*, display...) out of the pre-initialisation changed", file="coco/b09/visitors.py", line=vi.lineno, props=["C03"])
+    # slots, not a frozen fragment: the constants handed to BasicLiteral(...) (directly or through `a if c else b`), and
+    # the lengths names are compared with, wherever in the property or in a helper it calls they are written
+    scope = [vi] + [m_ for n_, m_ in py.cls("VarInitializerVisitor").methods.items() if any(isinstance(c, ast.Attribute) and c.attr == n_ for c in ast.walk(vi))]
+    init_consts = []
+    for fn_ in scope:
+        for c in ast.walk(fn_):
+            if isinstance(c, ast.Call) and getattr(c.func, "id", "") == "BasicLiteral" and c.args:
+                a0 = c.args[0]
+                for x in ([a0.body, a0.orelse] if isinstance(a0, ast.IfExp) else [a0]):
+                    if isinstance(x, ast.Constant):
+                        init_consts.append(repr(x.value))
+    okz = sorted(set(init_consts)) == ["''", "0.0"]
+    ctx.idiom("scalar-init-values", bool(init_consts), okz, "" if okz else f"pre-initialisation assigns {sorted(set(init_consts))}; Color BASIC starts strings as \"\" and numbers as 0 (a REAL 0.0 in BASIC09)", file="coco/b09/visitors.py", line=vi.lineno, props=["C03"])
+    lens = sorted({c.comparators[0].value for fn_ in scope for c in ast.walk(fn_) if isinstance(c, ast.Compare) and isinstance(c.left, ast.Call) and getattr(c.left.func, "id", "") == "len" and len(c.ops) == 1 and isinstance(c.ops[0], ast.LtE) and isinstance(c.comparators[0], ast.Constant)} | {a.value + 0 for fn_ in scope for a in ast.walk(fn_) if isinstance(a, ast.Constant) and isinstance(a.value, int) and not isinstance(a.value, bool) and a.value in (2, 3) and any(isinstance(p_, ast.Assign) and p_.value is not None and any(x is a for x in ast.walk(p_.value)) for p_ in ast.walk(fn_))})
+    okf = lens == [2, 3]
+    ctx.idiom("scalar-init-filter", bool(lens), okf, "" if okf else f"names are pre-initialised when their length is at most {lens}; user scalars are one or two characters (three with `$`), anything longer is a name the tool generated (arr_*, tmp_*, display ...)", file="coco/b09/visitors.py", line=vi.lineno, props=["C03"])
